@@ -18,11 +18,15 @@ ONT_AXIOMS = [
     (EX.r, RDFS.subPropertyOf, EX.p), (EX.C1, RDF.type, OWL.Class), (EX.p, RDF.type, OWL.ObjectProperty), (EX.q, OWL.inverseOf, EX.r),
     (EX.C1, OWL.equivalentClass, EX.C3), (EX.n0, RDF.type, OWL.NamedIndividual), (EX.n0, EX.p, EX.n1),
     (EX.n9, EX.q, EX.n0), (EX.unrelated, EX.note, Literal("not an axiom")),
+    (EX.n0, RDF.type, EX.C2), (EX.n1, RDF.type, OWL.NamedIndividual), (EX.n1, RDF.type, EX.C0), (EX.n1, EX.r, EX.n0),
 ]
 
 
 def gen_ontology(rng, kind):
     triples = rng.sample(ONT_AXIOMS, rng.randint(2, len(ONT_AXIOMS)))
+    if rng.random() < 0.6:
+        # the individuals always come with their description (types, outgoing and incoming links)
+        triples = list(dict.fromkeys(triples + [t for t in ONT_AXIOMS if EX.n0 in (t[0], t[2]) or EX.n1 in (t[0], t[2])]))
     if kind == "Graph":
         g = rdflib.Graph()
         for t in triples:
@@ -174,6 +178,13 @@ def main(tier, seed, replay=None):
         if ontk:
             og = gen_ontology(rng, ontk)
             ont_triples = quads_of(og)
+            if rng.random() < 0.6:
+                # the data graph repeats some of the ontology's declarations (an individual, a class, a property) without the
+                # rest of their description: the mix-in still has to bring that description along, in every container
+                decl = [t for _, t in ont_triples if t[1] == RDF.type and t[2] in (OWL.NamedIndividual, OWL.Class, OWL.ObjectProperty)]
+                decl.sort(key=lambda t: 0 if t[2] == OWL.NamedIndividual else 1)
+                for t in decl[:rng.randint(1, 2)] + rng.sample(decl, min(len(decl), 1)):
+                    triples.append(t)
 
         def ont():
             if not ontk:
